@@ -82,6 +82,13 @@ def snapshot():
                 if name == 'hszinc.grid_filter' and (k.startswith('_gen_hsfilter_') or k in ('_id_function', '_filter_function', '_id_counter', '_ids')):
                     continue
                 d[k] = id(v)
+                # the CONTENT of module-level containers is state too (a zone map that gains an entry is the same object afterwards)
+                if isinstance(v, (dict, list, set)) and len(v) < 20000 and not (name == 'hszinc.grid_filter' and k.startswith('_')):
+                    try:
+                        d[k + ' (content)'] = (len(v), sum(hash(x if isinstance(x, (str, int, float, tuple, frozenset, type(None))) else type(x).__name__)
+                                                          for x in v) & 0xffffffffffff)
+                    except Exception:  # noqa
+                        d[k + ' (content)'] = len(v)
             mods[name] = d
     import threading
     import warnings
@@ -458,7 +465,16 @@ def incomparable_task(dummy):
             warm.filter(t)
         except BaseException:  # noqa
             pass
-    for text in ('a == 2021-03-04T05:06:07Z Atlantis', 'a < 2021-03-04T05:06:07+01:00 Not_A_Zone', 'a == 5kW', 'a != 5kW', 'a < 5kW', 'a >= 5kW', 'a == 5kW and b', 'b or a > 1kW', 'r->a > 1kW', 'a < "x"', 'a > 2020-01-01', 'a == 12:00:00',
+    try:
+        from hszinc import zoneinfo as _zi
+        _zi.get_tz_map()
+        _zi.get_tz_rmap()
+        unmapped = sorted(set(_zi.HAYSTACK_TIMEZONES) - set(_zi.get_tz_map()))
+    except Exception:  # noqa
+        unmapped = []
+    # official Haystack zone names this host cannot map behave like invented ones: nothing is learnt from a filter
+    zone_texts = tuple('a == 2020-06-01T12:00:00-03:00 %s' % z for z in unmapped) + tuple('a < 2020-06-01T12:00:00-05:00 %s' % z for z in unmapped[:4])
+    for text in zone_texts + ('a == 2021-03-04T05:06:07Z Atlantis', 'a < 2021-03-04T05:06:07+01:00 Not_A_Zone', 'a == 5kW', 'a != 5kW', 'a < 5kW', 'a >= 5kW', 'a == 5kW and b', 'b or a > 1kW', 'r->a > 1kW', 'a < "x"', 'a > 2020-01-01', 'a == 12:00:00',
                  'a < @r', 'a > `u`', 'a <= NaN', 'a == 5', 'a < true'):
         g.filter('a')                                    # nothing new is imported or compiled lazily inside the measured call
         snap0 = snapshot()
